@@ -84,6 +84,45 @@ def parse_tmpl(t):
     return t[:i], split_targs(t[i + 1:-1])
 
 
+# contracts of the std::chrono operations the pinned tree does not use (time_point - time_point, time_point + nanoseconds,
+# duration_cast<milliseconds>); emitted into the generated C of a container only when its code uses them, so that the text
+# generated from the pinned tree (and with it every cached result) does not depend on them
+CHRONO_EXTRA = r"""
+#ifndef CSTL_CHRONO_EXTRA
+#define CSTL_CHRONO_EXTRA
+int64_t nondet_i64(void);
+static inline cstl_tp cstl_tp_add_ns(cstl_tp t, int64_t dn)
+{
+    CSTL_ASSERT(!((dn > 0 && t > INT64_MAX - dn) || (dn < 0 && t < INT64_MIN - dn)), "std.chrono: time_point + duration overflows [C08]");
+    return t + dn;
+}
+static inline int64_t cstl_tp_diff(cstl_tp a, cstl_tp b)
+{
+    CSTL_ASSERT(!((b < 0 && a > INT64_MAX + b) || (b > 0 && a < INT64_MIN + b)), "std.chrono: time_point - time_point overflows [C08]");
+    return a - b;
+}
+/* duration_cast<milliseconds>(nanoseconds): truncation toward zero.  Under CBMC the ms->ns conversion is abstract (one
+ * pair G_MS |-> G_NS of a strictly monotone map), so the inverse is known only relative to that pair: a duration of at
+ * least G_NS gives at least G_MS, a shorter one gives less, G_NS itself gives G_MS (over-approximation elsewhere). */
+#ifdef CSTL_CBMC
+static inline cstl_ms cstl_ns_to_ms(int64_t x)
+{
+    CSTL_ASSERT(x >= 0 && G_MS >= 0, "model bound: only non-negative durations are converted back to milliseconds");
+    CSTL_ASSUME((G_MS > 0) == (G_NS > 0) && G_NS >= G_MS);
+    cstl_ms r = nondet_i64();
+    CSTL_ASSUME(r >= 0 && r <= x);
+    CSTL_ASSUME(x >= G_NS ? r >= G_MS : r < G_MS);
+    CSTL_ASSUME(x != G_NS || r == G_MS);
+    return r;
+}
+#else
+static inline cstl_ms cstl_ns_to_ms(int64_t x) { return x / 1000000; }
+#endif
+#endif
+
+"""
+
+
 def balanced(x):
     """parentheses of x are balanced and never close below the start"""
     d = 0
@@ -525,7 +564,9 @@ class Emitter:
                                           params=fe.cparams, calls=sorted(fe.calls), members=sorted(fe.members), loops=fe.nloops, guard=fe.has_guard))
         H.extend(protos)
         H.append('#endif')
-        return '\n'.join(H) + '\n', '#include "%s.h"\n\n' % n + '\n'.join(C), info
+        ctext = '\n'.join(C)
+        extra = CHRONO_EXTRA if re.search(r'\bcstl_(ns_to_ms|tp_diff|tp_add_ns)\(', ctext) else ''
+        return '\n'.join(H) + '\n', '#include "%s.h"\n\n' % n + extra + ctext, info
 
     def cfix(self, cx, c):
         """record C names carry the class name; for the nots instantiation use the suffixed one"""
@@ -1314,6 +1355,15 @@ class FuncEmitter:
                 m = self.model_for_iter(t, e)
                 return '%s_next(%s, %s)' % (m.name, self.pool(m), self.expr(args[0]))
             abort('std::next over %s' % t.src, e)
+        if name == 'duration_cast' and len(args) == 1:
+            tf, tt = self.cls(args[0]), self.cls(e)
+            if tf.k == tt.k and tf.k in ('ms', 'ns'):
+                return self.expr(args[0])
+            if tf.k == 'ns' and tt.k == 'ms':
+                return 'cstl_ns_to_ms(%s)' % self.expr(args[0])
+            if tf.k == 'ms' and tt.k == 'ns':
+                return 'cstl_ms_to_ns(%s)' % self.expr(args[0])
+            abort('std::chrono::duration_cast from %s to %s' % (tf.src, tt.src), e)
         if name == 'make_pair':
             return '((cstl_pair){%s, %s})' % (self.expr(args[0]), self.expr(args[1]))
         if name in ('begin', 'end', 'size'):
@@ -1563,12 +1613,24 @@ class FuncEmitter:
                 return '(%s %s %s)' % (self.expr(a0), op, self.expr(args[1]))
             if t0.k == 'tp' and t1.k == 'tp':
                 return '(%s %s %s)' % (self.expr(a0), op, self.expr(args[1]))
+            if t0.k in ('ms', 'ns') and t1.k in ('ms', 'ns'):
+                # std::chrono compares durations in their common type (here: the finer period, nanoseconds)
+                def as_ns(t, x):
+                    return x if t.k == 'ns' or t0.k == t1.k else 'cstl_ms_to_ns(%s)' % x
+                return '(%s %s %s)' % (as_ns(t0, self.expr(a0)), op, as_ns(t1, self.expr(args[1])))
             abort('comparison %s between %s and %s' % (op, t0.src, t1.src), e)
         if op == '+':
             t1 = self.cls(args[1])
             if t0.k == 'tp' and t1.k == 'ms':
                 return 'cstl_tp_add_ms(%s, %s)' % (self.expr(a0), self.expr(args[1]))
+            if t0.k == 'tp' and t1.k == 'ns':
+                return 'cstl_tp_add_ns(%s, %s)' % (self.expr(a0), self.expr(args[1]))
             abort('operator+ between %s and %s' % (t0.src, t1.src), e)
+        if op == '-' and len(args) == 2:
+            t1 = self.cls(args[1])
+            if t0.k == 'tp' and t1.k == 'tp':
+                return 'cstl_tp_diff(%s, %s)' % (self.expr(a0), self.expr(args[1]))
+            abort('operator- between %s and %s' % (t0.src, t1.src), e)
         if op == '*' and len(args) == 1:
             if t0.k == 'ptr':
                 return '(*%s)' % self.expr(a0)
